@@ -845,8 +845,11 @@ pub fn configs(ctx: &Ctx, semantic: bool, hash: bool) -> Vec<SCfg> {
         // below 1 GiB and use all cores
         for (i, vt) in v4.into_iter().enumerate() {
             for &compress in modes.iter() {
-                for k in 0..16 {
-                    out.push(SCfg { n: 4, vtree: vt.clone(), compress, issue: i, ite_pool: 10, pair_stride: if compress || semantic { 127 } else { 509 }, slice: ((k + ctx.seed as usize) % 16, 16), ..base.clone() });
+                // (without compression diagrams over left-leaning vtrees grow by orders of magnitude:
+                // those builders get 64 residue classes of 1024 functions instead of 16 of 4096)
+                let classes = if compress || semantic { 16 } else { 64 };
+                for k in 0..classes {
+                    out.push(SCfg { n: 4, vtree: vt.clone(), compress, issue: i, ite_pool: 10, pair_stride: 127, slice: ((k + ctx.seed as usize) % classes, classes), ..base.clone() });
                 }
             }
         }
